@@ -137,6 +137,39 @@ M = [
  ('m_c30_flowmatch', 'C30', 'cylc/flow/commands.py',
   "            fnums_to_remove = child_itask.match_flows(flow_nums)\n            if not fnums_to_remove:\n                continue",
   "            fnums_to_remove = child_itask.flow_nums.copy()\n            if not fnums_to_remove:\n                continue"),
+ ('m_c27_held', 'C27', 'cylc/flow/task_proxy.py',
+  "        reload_successor.state.is_held = self.state.is_held\n",
+  ""),
+ ('m_c27_submit', 'C27', 'cylc/flow/task_proxy.py',
+  "        reload_successor.submit_num = self.submit_num\n",
+  ""),
+ ('m_c27_prereq', 'C27', 'cylc/flow/task_proxy.py',
+  "                pre[k] = pre_reload.get(\n                    k,\n                    # Else look thru task outputs to see if it's been satisfied\n                    check_output(*k, self.flow_nums)\n                )",
+  "                pre[k] = check_output(*k, self.flow_nums)"),
+ ('m_c27_newpre', 'C27', 'cylc/flow/task_proxy.py',
+  "                    check_output(*k, self.flow_nums)\n                )",
+  "                    False\n                )"),
+ ('m_c27_trigger', 'C27', 'cylc/flow/commands.py',
+  "    schd.pool.tasks_to_trigger_now = set()\n",
+  "    pass\n"),
+ ('m_c27_flows', 'C27', 'cylc/flow/task_pool.py',
+  "                    itask.point,\n                    itask.flow_nums,\n                    itask.state.status,",
+  "                    itask.point,\n                    {1},\n                    itask.state.status,"),
+ ('m_c28_activeouts', 'C28', 'cylc/flow/commands.py',
+  "                if key.output in active_completed_outputs.get(\n                    (str(key.point), key.task), ()\n                )",
+  "                if (str(key.point), key.task) in active_completed_outputs"),
+ ('m_c28_order', 'C28', 'cylc/flow/commands.py',
+  "        if jtask is not None and not in_flow_prereqs:",
+  "        if jtask is not None:"),
+ ('m_c28_live', 'C28', 'cylc/flow/commands.py',
+  "            if itask.state(TASK_STATUS_PREPARING, *TASK_STATUSES_ACTIVE):\n                # This is a live active group start task",
+  "            if False:\n                # This is a live active group start task"),
+ ('m_c27_orphan', 'C27', 'cylc/flow/task_pool.py',
+  "                if itask.state(TASK_STATUS_WAITING):\n                    # Remove orphaned task if it hasn't started running yet",
+  "                if itask.state(TASK_STATUS_WAITING) or itask.state.is_held:\n                    # Remove orphaned task if it hasn't started running yet"),
+ ('m_c27_queued', 'C27', 'cylc/flow/task_proxy.py',
+  "        reload_successor.state.is_queued = self.state.is_queued\n",
+  ""),
  ('m_c09_started_back', 'C09', 'cylc/flow/task_events_mgr.py',
   "            if flag == self.FLAG_RECEIVED and itask.state.is_gt(\n                TASK_STATUS_RUNNING\n            ):\n                # Already running.\n                return True",
   "            if False:\n                # Already running.\n                return True"),
